@@ -25,7 +25,7 @@ def _write(path, obj):
         with open(tmp, 'w') as f:
             json.dump(obj, f)
         os.replace(tmp, path)
-    except Exception:
+    except (OSError, ValueError, TypeError):
         pass
 
 
@@ -50,7 +50,7 @@ def _global(frame, event, arg):
             _armed.pop(ident, None)
         try:
             name = frame.f_locals['self']._name
-        except Exception:
+        except (KeyError, AttributeError):
             return None
         if not name or not isinstance(name, str):
             return None
@@ -58,13 +58,13 @@ def _global(frame, event, arg):
         try:
             with open(spec_path) as f:
                 spec = json.load(f)
-        except Exception:
+        except (OSError, ValueError):
             return None
         st = {'spec': spec, 'name': name, 'count': -1, 'fired': False, 'trace_f': None, 'ident': ident}
         if spec.get('trace', True):
             try:
                 st['trace_f'] = open(os.path.join(DIR, name + '.trace'), 'a', buffering=1)
-            except Exception:
+            except OSError:
                 pass
         st['local'] = _make_local(st)
         with _lock:
@@ -88,7 +88,7 @@ def _make_local(st):
                     and os.path.basename(frame.f_code.co_filename) in ('thread.py', 'process.py', 'remote.py'):
                 try:
                     st['trace_f'].close()
-                except Exception:
+                except (OSError, ValueError):
                     pass
                 st['trace_f'] = None
             return local
@@ -99,7 +99,7 @@ def _make_local(st):
             try:
                 st['trace_f'].write('%d %s %s %d %d\n' % (c, os.path.basename(code.co_filename), code.co_name, frame.f_lineno,
                                                          frame.f_lasti if gran == 'opcode' else -1))
-            except Exception:
+            except (OSError, ValueError):
                 pass
         if c == target_n and not st['fired'] and mode != 'census':
             st['fired'] = True
